@@ -57,6 +57,89 @@ func runC18(r *Run) {
 	r.rule("C18.R2", "codec and key-constructor agreement per family", 40)
 	r.rule("C18.R3", "InitGenesis literals of ledger delta/row types set every field of the type (or are whole-struct conversions)", 1)
 	r.rule("C18.R4", "SetOrderInitGenesis: a module whose InitGenesis call tree reads a family of another module comes after it", 5)
+	r.rule("C18.R5", "exporters do not filter: inside the iterations of ExportGenesis / GetAll* / All* every element is appended (grouping flushes and decoding successes aside)", 10)
+	r.rule("C18.R6", "genesis validation admits every state the live code can write: same-block opt-in/opt-out heights; a record completing at the import height (C03.R4 class)", 2)
+	{
+		n := 0
+		var fos []*types.Func
+		for fo := range exportReachable(w) {
+			fos = append(fos, fo)
+		}
+		sort.Slice(fos, func(i, j int) bool { return funcID(fos[i]) < funcID(fos[j]) })
+		for _, fo := range fos {
+			v := w.ViewOf(fo)
+			if v == nil || strings.HasSuffix(w.relFile(v.Decl.Pos()), ".pb.go") || strings.HasPrefix(funcID(fo), "x/evm") {
+				continue
+			}
+			nm := v.Decl.Name.Name
+			if !(nm == "ExportGenesis" || strings.HasPrefix(nm, "GetAll") || strings.HasPrefix(nm, "All")) {
+				continue
+			}
+			n++
+			r.saw(v.ID())
+			cas := conditionalAppendsInIterations(v)
+			var bad []string
+			for _, ca := range cas {
+				grouping := false
+				for _, c := range ca.Conds {
+					if strings.Contains(c, "prev") || strings.Contains(c, "previous") {
+						grouping = true // flush of a finished group when the key changes
+					}
+				}
+				if !grouping {
+					bad = append(bad, v.pos(ca.As)+" under "+strings.Join(ca.Conds, " && "))
+				}
+			}
+			r.check(len(bad) == 0, "C18.R5", "exporter|"+v.ID(), v.pos(v.Decl), "every stored element is exported", v.ID()+" leaves elements out of the export: append at "+strings.Join(bad, "; ")+" (the re-imported chain continues with a different state, e.g. a smaller validator set)")
+		}
+		if n == 0 {
+			r.bad("C18.R5", "exporter|none", "-", "exporters found", "no exporter functions found")
+		}
+	}
+	if vv := w.View("x/operator/types", "GenesisState.ValidateOptedStates"); vv == nil {
+		r.bad("C18.R6", "validate|opted-heights|anchor", "-", "anchor", "ValidateOptedStates not found")
+	} else {
+		r.saw(vv.ID())
+		// OptIn and OptOut both record ctx.BlockHeight(): equal heights are a live state, only out < in is invalid
+		okCls, found := true, false
+		ast.Inspect(vv.Decl.Body, func(nd ast.Node) bool {
+			ifs, isIf := nd.(*ast.IfStmt)
+			if !isIf {
+				return true
+			}
+			var fs []Fact
+			decompose(ifs.Cond, true, ifs, &fs)
+			for _, f := range mirrorFacts(fs) {
+				if cm, ok := factCmp(f); ok && lastField(cm.L) == "OptedOutHeight" && lastField(cm.R) == "OptedInHeight" && vv.blockEndKind(ifs.Body) == "return" {
+					found = true
+					if cm.Op != "<" {
+						okCls = false
+					}
+				}
+			}
+			return true
+		})
+		r.check(found && okCls, "C18.R6", "validate|opted-heights", vv.pos(vv.Decl), "an operator that opted in and out in the same block exports a genesis that validates (only OptedOutHeight < OptedInHeight is rejected)", "ValidateOptedStates rejects OptedOutHeight == OptedInHeight, which OptIn followed by OptOut in one block produces: every later export fails validation")
+	}
+	if r.Prop == "C18" {
+		sub := NewRun(r.W, "C03", r.Tier, r.Seed)
+		runC03(sub)
+		n := 0
+		for _, o := range sub.Obs {
+			if o.Rule != "C03.R4" {
+				continue
+			}
+			n++
+			if o.Status == "ok" {
+				r.ok("C18.R6", "import|"+o.Key, o.Pos, o.Desc)
+			} else {
+				r.bad("C18.R6", "import|"+o.Key, o.Pos, o.Desc, o.Detail)
+			}
+		}
+		if n == 0 {
+			r.bad("C18.R6", "import|none", "-", "C03.R4 obligations present", "none")
+		}
+	}
 
 	live := sumOf(e, cat.Fns("beginblock", "endblock", "epochhook", "delegationhook", "operatorhook", "dogfoodhook", "msg", "precompile", "sdkcallback"))
 	// all families with any access, per module
